@@ -653,7 +653,7 @@ def check(prop, tier):
             os.makedirs(os.path.join(ROOT, "replays"), exist_ok=True)
             path = os.path.join(ROOT, "replays", "%s-race-%d.json" % (prop, seed))
             json.dump({"property": prop, "engine": "racer", "kind": "data-race", "ops": [], "case": "-",
-                       "detail": "go -race reported a data race between lock-free readers and writers",
+                       "detail": "the -race stress reported a data race between lock-free readers and writers, or duplicate table lock sequence numbers",
                        "report": race["report"], "rerun": race["cmd"]}, open(path, "w"), indent=1)
             violations.append((path, ""))
 
@@ -730,7 +730,7 @@ def run_race(rc_cfg, seed):
     env = dict(GOENV, GORACE="halt_on_error=1 exitcode=66")
     p = subprocess.run([os.path.join(HARNESS, exe), "-d", "%ds" % secs, "-seed", str(seed)], env=env,
                        stdout=subprocess.PIPE, stderr=subprocess.STDOUT, text=True, timeout=secs + 600)
-    racy = p.returncode == 66 or "DATA RACE" in p.stdout
+    racy = p.returncode in (66, 67) or "DATA RACE" in p.stdout or "DUPLICATE LOCK SEQUENCE" in p.stdout
     return {"seconds": secs, "racy": racy, "cmd": cmd, "report": p.stdout[-6000:]}
 
 
